@@ -81,7 +81,7 @@ def _block_diag(blocks):
     return out
 
 
-HKINDS = ("gauss", "spectrum", "degenerate", "near_degenerate", "block", "psd", "identity")
+HKINDS = ("gauss", "spectrum", "degenerate", "near_degenerate", "block", "block_chain", "psd", "identity")
 HKINDS_ITER = ("spectrum", "spectrum", "degenerate", "near_degenerate", "block_sep", "psd_sep")
 
 
@@ -132,6 +132,21 @@ def make_herm(m):
             for s in sizes:
                 a = _g(rng, cplx, s, s)
                 blocks.append((a + a.conj().T) / 2)
+        H = _perm_sim(rng, _block_diag(blocks))
+    elif kind == "block_chain":
+        # sparsely connected blocks (chains + a few extra couplings, some zero diagonals), rows permuted: the connected
+        # components can only be found by merging partial groups
+        sizes, left = [], d
+        while left > 0:
+            sz = int(min(left, rng.integers(1, max(2, d // 2 + 2))))
+            sizes.append(sz)
+            left -= sz
+        blocks = []
+        for sz in sizes:
+            a = _g(rng, cplx, sz, sz)
+            mask = (np.abs(np.subtract.outer(np.arange(sz), np.arange(sz))) == 1) | (rng.random((sz, sz)) < 0.1)
+            mask = mask | mask.T | (np.eye(sz, dtype=bool) & (rng.random(sz) < 0.5))
+            blocks.append(((a + a.conj().T) / 2) * mask)
         H = _perm_sim(rng, _block_diag(blocks))
     elif kind == "psd":
         a = _g(rng, cplx, d, d)
@@ -1513,7 +1528,7 @@ def run_sqrtm(case):
 
 @st.composite
 def s_autoblock(draw, tier):
-    return {"mat": draw(s_herm_matrix(1, 24 if tier == "quick" else 40, ("block", "block", "block_sep", "degenerate", "gauss", "identity", "diag"))),
+    return {"mat": draw(s_herm_matrix(1, 24 if tier == "quick" else 40, ("block", "block_chain", "block_chain", "block_sep", "degenerate", "gauss", "identity", "diag"))),
             "fn": draw(st.sampled_from(["eigh", "eigvalsh", "eigvecsh", "eigensystem"])), "sort": draw(st.sampled_from([True, None, False])),
             "rep": draw(st.sampled_from(["dense", "qarray"]))}
 
@@ -1780,55 +1795,140 @@ def run_estimate_rank(case):
     return _relabel(case, _run_estimate_rank, r, kmax, ks, case["k_incr"], case["use_qb"], True)
 
 
+# ---------------------------------------------------------------------------
+# 21. operators that exist only through their action (lazy partial trace / partial transpose)
+# ---------------------------------------------------------------------------
+
+@st.composite
+def s_lazy_linop(draw, tier):
+    n = draw(st.integers(4, 6))
+    dims = [draw(st.sampled_from([2, 2, 3])) for _ in range(n)]
+    route = draw(st.sampled_from(["ptr", "ptr", "ppt"]))
+    keep = draw(st.lists(st.integers(0, n - 1), min_size=3, max_size=n - 1, unique=True).map(sorted))
+    na = draw(st.integers(1, len(keep) - 1))
+    return {"dims": dims, "route": route, "keep": keep, "na": na, "dtype": draw(st.sampled_from(A_.DTYPES64)), "seed": draw(A_.seeds),
+            "act": draw(st.sampled_from(["eigh", "eigh", "eigvalsh", "matvec", "groundenergy"])),
+            "backend": draw(st.sampled_from(["scipy", "scipy", None, "lobpcg"])), "which": draw(st.sampled_from(["LA", "LA", "SA"])),
+            "k": draw(st.integers(1, 3)), "v0seed": draw(A_.seeds)}
+
+
+def run_lazy_linop(case):
+    from quimb.linalg.approx_spectral import lazy_ptr_linop, lazy_ptr_ppt_linop
+
+    from ..oracle import ptrace
+
+    qu = Q()
+    dims, keep = [int(x) for x in case["dims"]], [int(x) for x in case["keep"]]
+    cplx = np.dtype(case["dtype"]).kind == "c"
+    psi = A_.rand_state(case["seed"], int(np.prod(dims)), case["dtype"])
+    rho = ptrace(psi, dims, keep)
+    if case["route"] == "ptr":
+        lo = lazy_ptr_linop(psi.reshape(-1, 1), dims, keep)
+        Md = rho
+    else:
+        sysa, sysb = keep[:case["na"]], keep[case["na"]:]
+        lo = lazy_ptr_ppt_linop(psi.reshape(-1, 1), dims, sysa, sysb)
+        ds = [dims[i] for i in keep]
+        r = rho.reshape(ds + ds)
+        nk = len(ds)
+        for p_, i in enumerate(keep):
+            if i in sysa:
+                r = np.swapaxes(r, p_, p_ + nk)
+        Md = r.reshape(rho.shape)
+    d = Md.shape[0]
+    if tuple(lo.shape) != (d, d):
+        raise Violation("shape", got=list(lo.shape), want=[d, d], route=case["route"])
+    ref = np.linalg.eigvalsh(Md.astype(np.complex128))
+    scale = max(float(np.max(np.abs(ref))), 1e-300)
+    act, backend, which, k = case["act"], case["backend"], case["which"], int(case["k"])
+    info = dict(route=case["route"], act=act, dtype="complex" if cplx else "real")
+    if act == "matvec":
+        v = seeded_vec(case["v0seed"], d, cplx)
+        err = rel_err(lo @ v, Md @ v, floor=fro(Md) * fro(v))
+        if not err <= EXACT64:
+            raise Violation("value", err=err, **info)
+        return {"nt": True, "cls": ["route=" + case["route"], "act=matvec"], "err": err}
+    if d < 8:
+        raise Reject("iterative solver needs k <= d-2")
+    bres = resolved_backend(lo, k, None, None, backend)
+    kw = {} if backend is None else {"backend": backend}
+    if bres == "SCIPY":
+        kw["v0"] = seeded_vec(case["v0seed"], d, cplx)
+    else:
+        kw.update(tol=1e-12, maxiter=600, v0=seeded_vec(case["v0seed"], d, cplx, k if act != "groundenergy" else 1))
+    deg = is_degenerate(ref, scale)
+    info.update(backend_resolved=bres, degenerate=deg, rule=which)
+    tol = INV64
+    if act == "groundenergy":
+        e0 = call_solver(lambda: qu.groundenergy(lo, **kw))
+        err = abs(float(np.real(e0)) - ref[0]) / scale
+        if not err <= tol:
+            raise Violation("selection", clause="not-the-smallest", err=err, **info)
+    else:
+        if act == "eigh":
+            lk, vk = call_solver(lambda: qu.eigh(lo, k=k, which=which, **kw))
+        else:
+            lk, vk = call_solver(lambda: qu.eigvalsh(lo, k=k, which=which, **kw)), None
+        lk = np.asarray(lk)
+        err = check_selection(lk.real, ref, which, k, None, tol * scale, **info) / scale
+        check_ascending(lk, **info)
+        if vk is not None:
+            err = max(err, check_pairs(Md, None, lk.real, np.asarray(vk), tol, **info))
+    return {"nt": True, "cls": ["route=" + case["route"], "act=" + act, "res=" + bres, "rule=" + which] + (["degenerate"] if deg else []), "err": err}
+
+
 SUBCHECKS = [
-    SubCheck("eigh_full", run_eigh_full, s_eigh_full, examples=(150, 3000), shards=(1, 4),
+    SubCheck("eigh_full", run_eigh_full, s_eigh_full, examples=(200, 3000), shards=(1, 4),
              rule="eigh/eigvalsh/eigvecsh/eigensystem with k<0 on 7 Hermitian kinds x 4 dtypes: spectrum == numpy, residual, Gram, "
                   "ascending unless sort=False, V diag V+ == A; nt: degenerate/block kind or sort=False"),
-    SubCheck("eigh_numpy", run_eigh_partial, s_eigh_numpy, examples=(250, 5000), shards=(1, 4),
+    SubCheck("eigh_numpy", run_eigh_partial, s_eigh_numpy, examples=(400, 5000), shards=(1, 4),
              rule="backend='numpy', k 0..d+1, SA/LA/LM/SM/TR+sigma/sigma alone, 8 representations; selection oracle with ties; "
                   "sort=False order == `which` order; nt: degenerate/block or rule != SA"),
-    SubCheck("eigh_scipy", run_eigh_partial, s_eigh_scipy, examples=(200, 4000), shards=(2, 6),
+    SubCheck("eigh_scipy", run_eigh_partial, s_eigh_scipy, examples=(300, 4000), shards=(2, 6),
              rule="backend='scipy' (ARPACK, explicit v0, tol=machine), k<=min(6,d-3), 10 representations incl. matvec-only operators; "
                   "nt: degenerate/block or rule != SA"),
-    SubCheck("eigh_lobpcg", run_eigh_partial, s_eigh_lobpcg, examples=(150, 3000), shards=(1, 4),
+    SubCheck("eigh_lobpcg", run_eigh_partial, s_eigh_lobpcg, examples=(200, 3000), shards=(1, 4),
              rule="backend='lobpcg' SA/LA, k<=4, explicit tol/maxiter, v0 as (d,k) block / 1-D / none; nt as eigh_scipy"),
-    SubCheck("eigh_auto", run_eigh_partial, s_eigh_auto, examples=(120, 2500), shards=(2, 6),
+    SubCheck("eigh_auto", run_eigh_partial, s_eigh_auto, examples=(200, 2500), shards=(2, 6),
              rule="backend None/'auto' at sizes d = isqrt(thr*k) + {-9..7} around both selection thresholds; all nt"),
-    SubCheck("eigh_generalized", run_eigh_generalized, s_eigh_generalized, examples=(200, 4000), shards=(1, 4),
+    SubCheck("eigh_generalized", run_eigh_generalized, s_eigh_generalized, examples=(300, 4000), shards=(1, 4),
              rule="A v = lambda B v, B positive definite (cond<=6), numpy/scipy/lobpcg/auto, A and B dense/qarray/csr/csc; reference "
                   "scipy.linalg.eigvalsh(A,B); B-orthonormal vectors; all nt"),
-    SubCheck("eigh_projected", run_eigh_projected, s_eigh_projected, examples=(120, 2500), shards=(1, 4),
+    SubCheck("eigh_projected", run_eigh_projected, s_eigh_projected, examples=(150, 2500), shards=(1, 4),
              rule="P= option (isometry / basis selection, dense/sparse/Lazy) on every backend: values == spectrum of P+AP, vectors in range(P); all nt"),
-    SubCheck("eig_full", run_eig_full, s_eig_full, examples=(150, 3000), shards=(1, 4),
+    SubCheck("eig_full", run_eig_full, s_eig_full, examples=(200, 3000), shards=(1, 4),
              rule="eig/eigvals/eigvecs/eigensystem(isherm=False) k<0 on normal / non-normal (cond(S)<=3) / triangular / gauss matrices; "
                   "nt: structured kind or sort=False"),
-    SubCheck("eig_partial", run_eig_partial, s_eig_partial, examples=(200, 4000), shards=(1, 4),
+    SubCheck("eig_partial", run_eig_partial, s_eig_partial, examples=(300, 4000), shards=(1, 4),
              rule="non-Hermitian k eigenpairs, numpy/scipy/auto, LM/SM/LR/SR/LI/SI and targets on real spectra; all nt"),
-    SubCheck("ground", run_ground, s_ground, examples=(200, 4000), shards=(1, 4),
+    SubCheck("ground", run_ground, s_ground, examples=(300, 4000), shards=(1, 4),
              rule="groundstate/groundenergy/bound_spectrum x backend x representation; nt: degenerate/block or auto backend"),
-    SubCheck("eigh_window", run_window, s_window, examples=(250, 5000), shards=(2, 6),
+    SubCheck("eigh_window", run_window, s_window, examples=(300, 5000), shards=(2, 6),
              rule="eigh_window/eigvalsh_window/eigvecsh_window, dense and sparse routes, relative centre x width x k; returned values "
                   "lie inside the window and are all of it or the k nearest the centre; nt: explicit width or degenerate"),
-    SubCheck("svd_full", run_svd_full, s_svd_full, examples=(120, 2500), shards=(1, 4),
+    SubCheck("svd_full", run_svd_full, s_svd_full, examples=(150, 2500), shards=(1, 4),
              rule="svd(A, return_vecs) on 8 rectangular kinds x 4 dtypes: triplets, orthonormality, descending, reconstruction; nt: structured kind"),
-    SubCheck("svds", run_svds, s_svds, examples=(200, 4000), shards=(1, 4),
+    SubCheck("svds", run_svds, s_svds, examples=(300, 4000), shards=(1, 4),
              rule="svds numpy/scipy/auto (sizes around the selection threshold), dense/sparse/operator, k<=min-2 for ARPACK: "
                   "sigma == top-k numpy values, triplet equations; nt: degenerate or auto or non-dense"),
-    SubCheck("norm", run_norm, s_norm, examples=(200, 4000), shards=(1, 4),
+    SubCheck("norm", run_norm, s_norm, examples=(250, 4000), shards=(1, 4),
              rule="norm over the 9 spellings of 3 norm types, dense/sparse, Hermitian shortcut; all nt"),
-    SubCheck("expm", run_expm, s_expm, examples=(150, 3000), shards=(1, 4),
+    SubCheck("expm", run_expm, s_expm, examples=(200, 3000), shards=(1, 4),
              rule="expm dense/sparse, herm shortcut, 7 argument kinds (Hermitian, anti-Hermitian, nilpotent...) vs own Taylor series; nt: d>=2, non-zero"),
-    SubCheck("expm_multiply", run_expm_multiply, s_expm_multiply, examples=(150, 3000), shards=(1, 4),
+    SubCheck("expm_multiply", run_expm_multiply, s_expm_multiply, examples=(200, 3000), shards=(1, 4),
              rule="expm_multiply(mat, vec) with dense/sparse/operator mat and 1-D / ket / block vec vs Taylor expm @ vec; nt: d>=2, non-zero"),
-    SubCheck("sqrtm", run_sqrtm, s_sqrtm, examples=(150, 3000), shards=(1, 4),
+    SubCheck("sqrtm", run_sqrtm, s_sqrtm, examples=(200, 3000), shards=(1, 4),
              rule="sqrtm herm=True (PSD, indefinite, rank deficient) / herm=False (spectrum in the right half plane): S@S == A; sparse refused; nt: d>=2"),
-    SubCheck("autoblock", run_autoblock, s_autoblock, examples=(200, 4000), shards=(1, 4),
+    SubCheck("autoblock", run_autoblock, s_autoblock, examples=(250, 4000), shards=(1, 4),
              rule="eigh/eigvalsh/eigvecsh/eigensystem(autoblock=True) on permuted block-diagonal / degenerate / diagonal matrices: spectrum == direct, "
                   "residual, Gram, order; nt: more than one block"),
-    SubCheck("rsvd", run_rsvd, s_rsvd, examples=(200, 4000), shards=(1, 4),
+    SubCheck("rsvd", run_rsvd, s_rsvd, examples=(300, 4000), shards=(1, 4),
              rule="rsvd on exact rank-r matrices (sigma in [0.5,2]), k=r / r+2 / r-1 and eps modes adapt+block / adapt, tall and wide, "
                   "compute_uv both: interlacing bound always; exact recovery unless k<r; all nt"),
-    SubCheck("estimate_rank", run_estimate_rank, s_estimate_rank, examples=(150, 3000), shards=(1, 4),
+    SubCheck("estimate_rank", run_estimate_rank, s_estimate_rank, examples=(200, 3000), shards=(1, 4),
              rule="estimate_rank(use_sli=False) on exact rank-r matrices: min(r,k_max) <= rank <= min(k_max, r+10) (documented resolution ~10), "
                   "returned vectors span the row space; all nt"),
+    SubCheck("lazy_linop", run_lazy_linop, s_lazy_linop, examples=(200, 3000), shards=(1, 4),
+             rule="lazy_ptr_linop / lazy_ptr_ppt_linop (operators defined only by a tensor-network action) fed to eigh/eigvalsh/groundenergy "
+                  "(scipy, auto, lobpcg): action and selected spectrum == dense partial trace / partial transpose (numpy einsum oracle); all nt"),
 ]
